@@ -609,8 +609,8 @@ impl Sess {
 // generators
 // ------------------------------------------------------------------------------------------
 
-struct Net {
-    first: u8,
+pub struct Net {
+    pub first: u8,
     /// distance of the target
     dist: u8,
     target_silent: bool,
@@ -630,9 +630,9 @@ struct Net {
     seq: u16,
 }
 
-const TARGET: u64 = 7;
+pub const TARGET: u64 = 7;
 
-fn gen_net(rng: &mut Rng, max_span: u8) -> Net {
+pub fn gen_net(rng: &mut Rng, max_span: u8) -> Net {
     let first = *rng.pick(&[1u8, 1, 1, 1, 2, 4, 200, 254]);
     let span = (*rng.pick(&[0u8, 1, 2, 2, 3, 3, 5, 8, 12, 30])).min(max_span);
     let dist = (u16::from(first) + u16::from(span)).min(254) as u8;
@@ -695,7 +695,7 @@ fn failed(p: &Probe) -> ProbeStatus {
 }
 
 /// a round as a conforming tracer would publish it against `net` (always `RoundWF`)
-fn net_round(net: &mut Net, rng: &mut Rng, round: usize) -> RoundRec {
+pub fn net_round(net: &mut Net, rng: &mut Rng, round: usize) -> RoundRec {
     let key = rng.below(net.flow_keys);
     let mut probes = vec![];
     let extra = rng.below(4) as u16;
